@@ -112,6 +112,9 @@ def st_mod(base):
     mods.append(st.just({"kind": "param", "name": "baseline", "attr": "expr"}))
     # an expression that evaluates to the value a fixed parameter already has (only `expr` differs)
     mods.append(st.just({"kind": "param", "name": "baseline", "attr": "expr_same"}))
+    # a bound of a parameter that is constrained by an expression (lmfit clips the evaluated expression to it)
+    mods.append(st.sampled_from(["min", "max"]).map(lambda w: {"kind": "param", "name": "baseline", "attr": "expr_bound",
+                                                               "which": w}))
     # SI-scale settings are tiny numbers: changes far below 1e-12 in absolute terms are still changes
     mods.append(st.tuples(st.sampled_from(["baseline_fixed", "contact_point_fixed", "weight_cp", "gcf_k", "range_hi"]),
                           st.floats(1e-13, 4e-13), st.sampled_from([1, -1])).map(
@@ -236,6 +239,8 @@ def build(base, mod=None, fit=False):
                   range_x=[twin["u"] * curve["z0"], twin["u"] * curve["z0"]])
     if twin.get("kind") == "param" and twin.get("attr") == "expr_same":
         pi["baseline"].set(vary=False)
+    if twin.get("kind") == "param" and twin.get("attr") == "expr_bound":
+        pi["baseline"].set(expr="E*1e-15", min=-1e-6, max=1e-6)
     if kind == "setting":
         kw[mod["key"]] = mod["value"]
         if mod.get("reset_kws"):
@@ -265,6 +270,11 @@ def build(base, mod=None, fit=False):
             p.set(expr="E*1e-15")
         elif mod["attr"] == "expr_same":
             p.set(expr="%r + 0*E" % float(p.value))
+        elif mod["attr"] == "expr_bound":
+            if mod["which"] == "max":
+                p.set(max=1e-13)
+            else:
+                p.set(min=1e-9)
     elif kind == "range_equal":
         kw.update(optimal_fit_edelta=True, range_type="absolute", segment=0,
                   range_x=[mod["v"] * curve["z0"], mod["v"] * curve["z0"]])
